@@ -2,6 +2,7 @@ package main
 
 import (
 	"fmt"
+	"os"
 	"go/types"
 	"strings"
 
@@ -9,7 +10,7 @@ import (
 )
 
 func (e *Engine) newFT(fn *ssa.Function) *FT {
-	return &FT{e: e, top: fn, occ: map[string]int{}, assumed: map[string]bool{}, inlined: map[string]bool{}, havocked: map[string]bool{}}
+	return &FT{e: e, top: fn, occ: map[string]int{}, assumed: map[string]bool{}, inlined: map[string]bool{}, havocked: map[string]bool{}, staticLen: map[string]int{}}
 }
 
 // verifyFunc generates the obligations of fn against its contract (fc may be
@@ -87,53 +88,63 @@ func (e *Engine) verifyFunc(fn *ssa.Function, fc *FuncContract, safety bool) *FT
 	ft.inlineStack = []*ssa.Function{fn}
 	fr.execBody(st.clone(), "true")
 	if fc != nil {
-		for _, x := range fr.exits {
-			env := fr.ownEnv(x.st, fr.entry, nil)
-			var res Val
-			if len(x.results) == 1 {
-				res = x.results[0]
-			} else {
-				res = Val{Tuple: x.results}
+		type goalAcc struct {
+			c     *Clause
+			conds []string
+			goals []string
+		}
+		collect := func(exits []exitEdge, clauses []*Clause, kind string, withUpdates bool) {
+			accs := make([]*goalAcc, len(clauses))
+			for i, c := range clauses {
+				accs[i] = &goalAcc{c: c}
 			}
-			env.bindResults(fn.Signature, fn, res)
-			// ghost code: simultaneous assignment at exit
-			if len(fc.Updates) > 0 {
-				var vals []string
-				for _, up := range fc.Updates {
-					v, err := env.eval(up.E)
-					if err != nil {
-						e.contractError(up, err)
-						vals = append(vals, "")
+			for _, x := range exits {
+				env := fr.ownEnv(x.st, fr.entry, nil)
+				if kind == "post" {
+					var res Val
+					if len(x.results) == 1 {
+						res = x.results[0]
+					} else {
+						res = Val{Tuple: x.results}
+					}
+					env.bindResults(fn.Signature, fn, res)
+				}
+				if withUpdates {
+					// ghost code: sequential assignments at exit
+					for _, up := range fc.Updates {
+						v, err := env.eval(up.E)
+						if err != nil {
+							e.contractError(up, err)
+							continue
+						}
+						ft.setHeap(x.st, e.ghostHeap(up.Label), v.T.S)
+					}
+				}
+				for i, en := range clauses {
+					if en.E == nil {
 						continue
 					}
-					vals = append(vals, v.T.S)
-				}
-				for i, up := range fc.Updates {
-					if vals[i] != "" {
-						ft.setHeap(x.st, e.ghostHeap(up.Label), vals[i])
+					goal, err := env.evalBool(en.E)
+					if err != nil {
+						e.contractError(en, err)
+						continue
 					}
+					if os.Getenv("GOVC_SPLIT_EXITS") != "" {
+						fr.oblig(kind+"-exit", en.Props, fn.Pos(), en.name(), x.cond, goal)
+					}
+					accs[i].conds = append(accs[i].conds, x.cond)
+					accs[i].goals = append(accs[i].goals, implies(x.cond, goal))
 				}
 			}
-			for _, en := range fc.Ensures {
-				goal, err := env.evalBool(en.E)
-				if err != nil {
-					e.contractError(en, err)
+			for _, a := range accs {
+				if len(a.goals) == 0 {
 					continue
 				}
-				fr.oblig("post", en.Props, fn.Pos(), en.Text, x.cond, goal)
+				fr.oblig(kind, a.c.Props, fn.Pos(), a.c.name(), or(a.conds...), and(a.goals...))
 			}
 		}
-		for _, x := range fr.xexits {
-			env := fr.ownEnv(x.st, fr.entry, nil)
-			for _, en := range fc.XEnsures {
-				goal, err := env.evalBool(en.E)
-				if err != nil {
-					e.contractError(en, err)
-					continue
-				}
-				fr.oblig("xpost", en.Props, fn.Pos(), en.Text, x.cond, goal)
-			}
-		}
+		collect(fr.exits, fc.Ensures, "post", true)
+		collect(fr.xexits, fc.XEnsures, "xpost", false)
 		// declared frame covers inferred effects
 		if fc.HasMod {
 			decl := e.resolveModifies(fc, fn)
@@ -198,6 +209,25 @@ func (fr *frame) libCall(instr *ssa.Call, callee *ssa.Function, name string, sig
 	ft := fr.ft
 	u := ft.e.u
 	switch name {
+	case "path.Join", "path/filepath.Join":
+		// variadic with statically known argument count: uninterpreted function of the elements
+		if len(args) == 1 {
+			if n, ok := ft.staticLen[args[0].T.S]; ok && n > 0 && n <= 6 {
+				h, _ := u.elemHeap(types.Typ[types.String])
+				arr := sel(ft.heapTerm(st, h), sx("sbase", args[0].T.S))
+				var as, sorts []string
+				for i := 0; i < n; i++ {
+					as = append(as, sel(arr, fmt.Sprint(i)))
+					sorts = append(sorts, "Str")
+				}
+				fn := fmt.Sprintf("ext$path.Join$%d", n)
+				u.declFun(fn, fmt.Sprintf("(declare-fun %s (%s) Str)", fn, strings.Join(sorts, " ")))
+				fr.setResult(instr, Val{T: Term{ft.define("joined", SStr, sx(fn, as...)), SStr}})
+				ft.e.usedExternals[name] = "uf-of-elements"
+				return reach, true
+			}
+		}
+		return reach, false
 	case "errors.New", "fmt.Errorf":
 		r := ft.newRef(st, "err", reach)
 		ft.assume("true", eq(sx("dyntype", r), fmt.Sprint(u.typeID(types.Universe.Lookup("error").Type())*1000+7)))
